@@ -91,4 +91,55 @@ def deTxMutable : Parser Tx := fun s => do
   let (t, r) ← deTx s
   pure (mutableDefaultWit t, r)
 
+/-! ### every serialisable class: `Serializable.GetHash / __eq__ / __hash__` on the component objects -/
+
+/-- the field values of an object of any of the serialisable classes of bitcoin/core (the mutable and
+    the immutable class of a pair carry the same field values; the class is a separate tag) -/
+inductive Obj
+  | outPoint (o : OutPoint)       -- COutPoint / CMutableOutPoint
+  | txIn (i : TxIn)               -- CTxIn / CMutableTxIn
+  | txOut (o : TxOut)             -- CTxOut / CMutableTxOut
+  | scriptWit (s : WitStack)      -- CScriptWitness
+  | inWit (s : WitStack)          -- CTxInWitness
+  | wit (w : List WitStack)       -- CTxWitness
+  | tx (t : Tx)                   -- CTransaction / CMutableTransaction
+  | header (h : Header)           -- CBlockHeader
+  | block (b : Block)             -- CBlock
+
+/-- `obj.serialize()` -/
+def Obj.ser : Obj → Res Bytes
+  | .outPoint o => serOutPoint o
+  | .txIn i => serTxIn i
+  | .txOut o => serTxOut o
+  | .scriptWit s => serWitStack s
+  | .inWit s => serWitStack s
+  | .wit w => serWitness w
+  | .tx t => serTx t
+  | .header h => serHeader h
+  | .block b => serBlock b
+
+/-- `obj.GetHash()`: `Hash(self.serialize())` for every class except `CBlock`, which hashes its header -/
+def Obj.getHashWith (H : Bytes → Bytes) : Obj → Res Bytes
+  | .block b => blockHashWith H b
+  | o => do
+      let s ← o.ser
+      pure (H s)
+
+/-- an object: class tag and field values -/
+structure PyObj where
+  cls : Cls
+  val : Obj
+
+/-- `Serializable.__eq__` between two objects of the same class pair (the `isinstance` test passes
+    in either direction because the mutable class derives from the immutable one) -/
+def objEq (a b : PyObj) : Res Bool := do
+  let x ← a.val.ser
+  let y ← b.val.ser
+  pure (x == y)
+
+/-- `Serializable.__hash__` / `ImmutableSerializable.__hash__`: `hash(self.serialize())` -/
+def objPyHashWith (pyHash : Bytes → Int) (a : PyObj) : Res Int := do
+  let x ← a.val.ser
+  pure (pyHash x)
+
 end BtcVerif.Model.Ident
